@@ -222,6 +222,20 @@ def run(ctx):
         layers, dist = G.ref_bfs(gd, [gd["central"]])
         cfgd = G.gen_config(rng, gd)
         graph = G.make_graph(gd, cfgd)
+        if gd["kind"] == "perm" and rng.random() < 0.35 and len(gd["central"]) <= 127:
+            # the same definition with its generators handed over as a LIST OF ROWS of a narrow integer type (NumPy rows, NumPy scalars or tensor rows): the
+            # generated bit routines compute p[i]*w + j, which must not happen in 8-bit arithmetic
+            import numpy as np
+            from cayleypy import CayleyGraph, CayleyGraphDef
+            form = rng.choice(["np.int8 rows", "np.uint8 rows", "np.int8 scalars", "torch.uint8 rows", "torch.int16 rows"])
+            if form.startswith("np") and form.endswith("rows"):
+                rows_ = [np.array(g_, dtype=np.int8 if "int8" in form and "uint8" not in form else np.uint8) for g_ in gd["gens"]]
+            elif form.endswith("scalars"):
+                rows_ = [[np.int8(v) for v in g_] for g_ in gd["gens"]]
+            else:
+                rows_ = [torch.tensor(g_, dtype=torch.uint8 if "uint8" in form else torch.int16) for g_ in gd["gens"]]
+            graph = CayleyGraph(CayleyGraphDef.create(rows_, central_state=list(gd["central"])), device="cpu", **cfgd)
+            ctx.count("generators_as_narrow_rows")
         verts = sorted(dist)
         sts = [list(rng.choice(verts)) for _ in range(rng.randint(1, 4))]
         if rng.random() < 0.4:
